@@ -37,8 +37,24 @@ fn parse_display(d: &str) -> Option<(usize, usize, String, Option<usize>, bool)>
 
 fn pair_lc_builder(s: &str, off: usize) -> Result<(usize, usize), String> {
     guarded(|| {
-        let mut ps = PairsBuilder::<u8>::new(s).rule(1u8, off, off).build();
-        ps.next().unwrap().line_col()
+        // the pair alone; followed by a sibling that lies BEFORE it in the input; as a child reaching past its parent:
+        // the builder accepts all three, and a pair's line/column depends on its own position only
+        let a = PairsBuilder::<u8>::new(s).rule(1u8, off, off).build().next().unwrap().line_col();
+        let b = PairsBuilder::<u8>::new(s).rule(1u8, off, off).rule(2u8, 0, 0).build().next().unwrap().line_col();
+        let c = PairsBuilder::<u8>::new(s)
+            .rule_with(2u8, 0, 0, |i| i.rule(1u8, off, off))
+            .build()
+            .next()
+            .unwrap()
+            .into_inner()
+            .next()
+            .unwrap()
+            .line_col();
+        if a == b && b == c {
+            a
+        } else {
+            (0, 0)
+        }
     })
 }
 fn pair_lc_parse(s: &str, nchars: usize) -> Result<(usize, usize), String> {
